@@ -29,4 +29,5 @@ func init() {
 	register("C03", "exploration", C03)
 	register("C12", "exploration", C12)
 	register("C13", "exploration", C13)
+	register("C10", "exploration", C10)
 }
